@@ -6,6 +6,7 @@ pub struct ElementAt<Item>
 where
   Item: Clone + Send + Sync,
 {
+  count: usize,
   take_op: operators::Take<Item>,
 }
 
@@ -15,11 +16,13 @@ where
 {
   pub fn new(count: usize) -> ElementAt<Item> {
     ElementAt {
+      count,
       take_op: operators::Take::<Item>::new(count),
     }
   }
   pub fn execute(&self, source: Observable<'a, Item>) -> Observable<'a, Item> {
     let take_op = self.take_op.clone();
+    let skip = self.count.saturating_sub(1);
 
     Observable::<Item>::create(move |s| {
       let source = source.clone();
@@ -31,7 +34,7 @@ where
 
       take_op
         .execute(source)
-        .last()
+        .skip(skip)
         .inner_subscribe(sctl.new_observer(
           move |_, x| {
             sctl_next.sink_next(x);
